@@ -309,6 +309,33 @@ pub fn normalize_grid(all: bool, part: u64) -> Vec<String> {
             }
         }
     }
+    // restatement triples: A, then a rule B sharing a selector with A (same days, other hours / same
+    // hours, other days ...), then A or B restated exactly - with every pair of separators and a
+    // rotating kind (a memo keyed on "the same selector as before" must be invalidated by B)
+    {
+        let tokens = |s: &str| -> Vec<String> { s.split(' ').map(|t| t.to_string()).collect() };
+        let mut triple = 0u64;
+        for a in shapes.iter().skip(1) {
+            let ta = tokens(a);
+            for b in shapes.iter().skip(1) {
+                if a == b || !tokens(b).iter().any(|t| ta.contains(t)) {
+                    continue;
+                }
+                for (zi, z) in [a, b].into_iter().enumerate() {
+                    for (s1, sep1) in seps.iter().enumerate() {
+                        for (s2, sep2) in seps.iter().enumerate() {
+                            triple += 1;
+                            if !all && triple % 6 != part % 6 {
+                                continue;
+                            }
+                            let (k1, k2) = (kinds[(s1 + zi) % 3], kinds[(s2 + s1 * 2 + zi + (triple % 3) as usize) % 3]);
+                            v.push(format!("{a}{sep1}{b}{k1}{sep2}{z}{k2}"));
+                        }
+                    }
+                }
+            }
+        }
+    }
     // triples along one dimension, more cut points
     let fine: [&[&str]; 5] = [
         &["2019-2021", "2020-2024", "2021", "2022-2030", "2024-2026", "2025", "1900-2022", "2023-9999"],
